@@ -149,7 +149,9 @@ func check(t run.TB, c Case) {
 	}
 }
 
-var tails = []string{"GET /x", "TYPE @a", "200", "Body", "}", ",", "x", ":", "]", "Request", "@next", "\"q\"", "0", "true"}
+var tails = []string{"GET /x", "TYPE @a", "200", "Body", "}", ",", "x", ":", "]", "Request", "@next", "\"q\"", "0", "true",
+	// foreign text of several lines, with the characters that start comments and annotations
+	"x\ny", "GET /x\n  200", "x/y", "x#c\nz", "x\r\n\r\ny", "Body // c\n{}", "x # c"}
 var safeTails = []string{"GET /x", "TYPE @a", "200", "Body", "x", "Request", "0", "true"}
 
 func endsWithAnnotationOrComment(s string) bool {
@@ -225,13 +227,24 @@ func TestLen(t *testing.T) {
 			sep := rapid.SampledFrom([]string{", ", ",", ",\n  "}).Draw(t, "isep")
 			lead := rapid.SampledFrom([]string{"", "", " ", "\n", "\t ", " \r\n"}).Draw(t, "enumLead")
 			c.S = lead + "[" + strings.Join(toks, sep) + "]"
-			if rapid.IntRange(0, 4).Draw(t, "cmt") == 0 {
-				c.S += " // trailing comment"
+			if rapid.IntRange(0, 3).Draw(t, "cmt") == 0 {
+				// (also an empty comment: the line break right after "//" ends it)
+				c.S += rapid.SampledFrom([]string{" // trailing comment", " //", "//", " /**/", " /* c */"}).Draw(t, "cmtText")
 			}
 			rootContainer = n > 0
 			rootBegin, rootEnd = strings.Index(c.S, "["), strings.LastIndex(c.S, "]")
 		}
-		// negative half
+		// negative half: a shortcut cut off at the end of the input, a text of blanks only
+		if neg := rapid.IntRange(0, 39).Draw(t, "negativeScalar"); neg < 2 {
+			nc := Case{Kind: "schema", S: rapid.SampledFrom([]string{"@", "@a |", "@a|", "@a | @", "@a |\t", " @a | @b |"}).Draw(t, "cutShortcut"), Cut: true}
+			if neg == 1 {
+				nc = Case{Kind: "json", S: rapid.SampledFrom([]string{"", " ", "\n", " \r\n\t", "\t\t"}).Draw(t, "blankText"), Cut: true}
+			}
+			check(t, nc)
+			run.Eval(chk, true, nc.Kind, nc.S, "cut")
+			run.Label("negative:" + nc.Kind + ":no-value")
+			return
+		}
 		if rootContainer && rapid.IntRange(0, 4).Draw(t, "negative") == 0 {
 			cut := rapid.IntRange(rootBegin+1, rootEnd).Draw(t, "cut")
 			nc := Case{Kind: c.Kind, S: c.S[:cut], Sep: rapid.SampledFrom([]string{"", " ", "\n"}).Draw(t, "nsep"), Tail: rapid.SampledFrom(safeTails).Draw(t, "ntail"), Cut: true}
